@@ -230,9 +230,15 @@ def run_one(rec_, direct=False, share=False, http_exc=False, resp_kind=0, provid
     R = Rec()
     rec_ = dict(rec_, _direct=direct, _share=share, _http_exc=http_exc, _resp_kind=resp_kind, _provides=provides, _related=related,
                 _sibling=sibling)
-    app, path = build(rec_, R)
+    try:
+        app, path = build(rec_, R)
+    except Exception as e:  # noqa  (the configuration is inside the model: construction must succeed)
+        return [['construction-raised', [0, 0], type(e).__name__, [0, 0]]], -1
     cl = Client(app, BaseResponse)
-    resp = cl.get(path)
+    try:
+        resp = cl.get(path)
+    except Exception as e:  # noqa
+        return R.events + [['escaped', [0, 0], type(e).__name__, [0, 0]]], -1
     return R.events, resp.status_code
 
 
